@@ -103,6 +103,7 @@ def run(ctx, rep):
     check_cache_account(fx, rep)
     check_reads(fx, rep)
     check_has_storage_answers(fx, rep)
+    check_info_predicates(fx, rep)
     rep.assume('the EVM only creates accounts whose storage is empty (C21) and only empties accounts it has changed first')
 
 
@@ -782,3 +783,93 @@ def known_guard(parent, g, bi, fx):
                             and parent.local_name(t.dest.b) == 'is_storage_known':
                         return True
     return False
+
+
+# ------------------------------------------------------------------ R2c
+
+def check_info_predicates(fx, rep):
+    """R2c: the AccountInfo predicates the status machine branches on, as truth tables over their
+    atoms (E: code hash is KECCAK_EMPTY, Z: code hash is zero, B: balance is zero, N: nonce is 0):
+    is_empty = (E or Z) and B and N; exists = not is_empty; has_no_code_and_nonce = E and N (it
+    decides whether a changed account is promoted to InMemoryChange, after which State stops asking
+    the database for its storage); is_empty_code_hash compares code_hash with KECCAK_EMPTY."""
+    import itertools as it
+    A = 'revm_primitives::state::AccountInfo::'
+    want = {
+        'is_empty': lambda E, Z, B, N: (E or Z) and B and N,
+        'exists': lambda E, Z, B, N: not ((E or Z) and B and N),
+        'has_no_code_and_nonce': lambda E, Z, B, N: E and N,
+    }
+
+    def atom(txt):
+        if txt.startswith('is_empty_code_hash('):
+            return 'E'
+        if txt.startswith('is_zero(') and txt.rstrip(')').endswith('.code_hash'):
+            return 'Z'
+        if txt.startswith('is_zero(') and txt.rstrip(')').endswith('.balance'):
+            return 'B'
+        if txt.replace(' ', '') in ('Eq(arg1.nonce,0)', 'Eq(0,arg1.nonce)'):
+            return 'N'
+        return None
+
+    def value(sv, val):
+        if sv[0] == 'k':
+            return bool(int(sv[1]))
+        if sv[0] == 'un' and sv[1] == 'Not':
+            v = value(sv[2], val)
+            return None if v is None else not v
+        if sv[0] == 'bin' and sv[1] == 'Ne':
+            a = atom(render(('bin', 'Eq', sv[2], sv[3])))
+            return None if a is None else not val[a]
+        a = atom(render(sv))
+        return None if a is None else val[a]
+    for nm, fn_ in want.items():
+        f = fx.fns.get(A + nm)
+        if f is None:
+            rep.undecided('R2-predicates', 'AccountInfo::' + nm, 'not found')
+            continue
+        rep.fn(f)
+        try:
+            rs = Symx(fx, max_paths=500, inline={A + 'is_empty'}, pure={A + 'is_empty_code_hash'}).run(f)
+        except Budget:
+            rep.undecided('R2-predicates', 'AccountInfo::' + nm, 'path budget', f.where())
+            continue
+        bad = None
+        for E, Z, B, N in it.product((False, True), repeat=4):
+            if E and Z:
+                continue            # KECCAK_EMPTY is not the zero hash
+            val = {'E': E, 'Z': Z, 'B': B, 'N': N}
+            got = set()
+            for r in rs:
+                ok = True
+                for (sv, lit, _f, _b) in r.lits:
+                    v = value(sv, val)
+                    tv = lit_truth(lit)
+                    if v is None or tv is None:
+                        ok = None
+                        break
+                    if v != tv:
+                        ok = False
+                        break
+                if ok is None:
+                    got.add('?')
+                elif ok:
+                    got.add(value(r.ret, val))
+            if got != {bool(fn_(E, Z, B, N))}:
+                bad = 'for code-hash-empty=%s code-hash-zero=%s balance-zero=%s nonce-zero=%s it answers %s, expected %s' % (E, Z, B, N, sorted(map(str, got)), bool(fn_(E, Z, B, N)))
+                break
+        if bad:
+            rep.violation('R2-predicates', 'AccountInfo::' + nm, 'AccountInfo::%s: %s' % (nm, bad), f.where())
+        else:
+            rep.ok('R2-predicates', 'AccountInfo::' + nm, '12 cells')
+    f = fx.fns.get(A + 'is_empty_code_hash')
+    if f is not None:
+        rep.fn(f)
+        rs = Symx(fx, max_paths=50).run(f)
+        txt = render_deep(rs[0].ret) if len(rs) == 1 else ''
+        from c21 import KECCAK_EMPTY_BYTES
+        kb = ', '.join("('k', %d)" % b for b in bytes(KECCAK_EMPTY_BYTES))
+        if len(rs) == 1 and rs[0].ret[0] == 'call' and rs[0].ret[1].split('::')[-1] == 'eq' and '.code_hash' in txt and kb in txt:
+            rep.ok('R2-predicates', 'AccountInfo::is_empty_code_hash', 'code_hash == KECCAK_EMPTY')
+        else:
+            rep.violation('R2-predicates', 'AccountInfo::is_empty_code_hash', 'is_empty_code_hash is not `code_hash == KECCAK_EMPTY`: %s' % txt[:120], f.where())
